@@ -67,6 +67,27 @@ claim('C07', 'exploration', 'runtime monitor: decode-as-a-whole oracle over enum
       '(up to 3 cuts, enumerated for short streams), 13 codecs x 3 error policies, six transports incl. asyncio.',
       'bytes.decode is the definition; garbage only for codecs whose incremental decoder agrees with one-shot.', '5/C07')
 
+claim('C08', 'exploration', 'runtime monitor: peer-side byte log vs independently encoded call sequence',
+      'Random send-family call sequences on four transports; a raw-mode peer reports the bytes it read, compared '
+      'exactly with an independent incremental encoding of the arguments (one linesep per sendline, documented control '
+      'bytes); return values checked per call.',
+      'Raw-mode pty peer; control table from the documentation; VEOF/VINTR from the tty.', '5/C08')
+claim('C09', 'exploration', 'runtime monitor: exit-status oracle with /proc ground truth',
+      'Every fate (exit code / terminating signal) x observation path x random repeated observations on pty and popen '
+      'children and run(); attributes and return values compared with the fate by construction, cross-checked with the '
+      'raw wait status in /proc before pexpect reaps the zombie.',
+      'Trusts /proc/<pid>/stat field 52; wait() only issued when the child has exited.', '5/C09')
+claim('C11', 'exploration', 'runtime monitor: recording log objects vs API-boundary event journal',
+      'Recording file objects journal every write/flush; compared with the text the read path delivered and the '
+      'arguments of the send family, in operation order, flush after every write, API string type; four transports, all '
+      'log subsets incl. a shared object, and interact() through the outer-pty driver.',
+      'Read-side truth is what the instance read_nonblocking returned; interact part relies on the C15 driver.', '5/C11')
+claim('C15', 'exploration', 'runtime monitor: interact trace oracle on an outer pty with os-call proxy',
+      'Sessions driven through an outer pty; per stdin read chunk (observed by an os proxy in the driver) the inner '
+      'raw-mode child must receive filter(chunk) up to the first escape and nothing after; user side must receive pending '
+      '+ output_filter(child reads); return and tty-mode restoration checked.',
+      'Non-return within 15 s is a refuting event; inner child is a raw-mode reporter.', '5/C15')
+
 PENDING = {
 }
 
